@@ -75,14 +75,15 @@ fn c15_refblock_set() {
     let r = rb.__set(i, v);
     let after = bytes_of(&rb);
     let j: usize = kani::any();
-    kani::assume(j < rb.entries() && j != i);
     let k: usize = kani::any();
     kani::assume(k < 8);
     match &r {
         Ok(()) => {
             assert!(v <= spec::rc_max(order as u32));
             assert!(spec::rc_get(&after, order as u32, i) == v);
-            assert!(spec::rc_get(&after, order as u32, j) == spec::rc_get(&init, order as u32, j));
+            if j < rb.entries() && j != i {
+                assert!(spec::rc_get(&after, order as u32, j) == spec::rc_get(&init, order as u32, j));
+            }
             // bytes that hold no bit of entry i are untouched
             let w = 1usize << order;
             let first = i * w / 8;
@@ -120,13 +121,14 @@ fn c03_refcount_step() {
     let i: usize = kani::any();
     kani::assume(i < rb.entries());
     let j: usize = kani::any();
-    kani::assume(j < rb.entries() && j != i);
     let old = spec::rc_get(&init, order as u32, i);
     let inc: bool = kani::any();
     let r = if inc { rb.increment(i) } else { rb.decrement(i) };
     let after = bytes_of(&rb);
     let new = spec::rc_get(&after, order as u32, i);
-    assert!(spec::rc_get(&after, order as u32, j) == spec::rc_get(&init, order as u32, j));
+    if j < rb.entries() && j != i {
+        assert!(spec::rc_get(&after, order as u32, j) == spec::rc_get(&init, order as u32, j));
+    }
     match &r {
         Ok(()) => {
             if inc {
@@ -266,7 +268,7 @@ free_range_harness!(c08_free_range_o3, 3, 4, 10);
 // @bounds slice: 8 bytes arbitrary content; count 1..=4; start any; refcount_order 4 (concrete)
 // @funcs RefBlock::get_free_range RefBlock::get_tail_free_range RefBlock::__get RefBlock::entries
 // @stub alloc::fmt::format -> String::new()
-free_range_harness!(c08_free_range_o4, 4, 4, 6);
+free_range_harness!(c08_free_range_o4, 4, 4, 10);
 
 // @harness c08_free_range_o1
 // @props C08 C03
@@ -286,7 +288,7 @@ free_range_harness!(c08_free_range_o1, 1, 3, 34);
 // @bounds slice: 8 bytes arbitrary content; count 1..=2; start any; refcount_order 5 (concrete)
 // @funcs RefBlock::get_free_range RefBlock::get_tail_free_range RefBlock::__get RefBlock::entries
 // @stub alloc::fmt::format -> String::new()
-free_range_harness!(c08_free_range_o5, 5, 2, 6);
+free_range_harness!(c08_free_range_o5, 5, 2, 10);
 
 // @harness c03_alloc_range
 // @props C03 C08
